@@ -247,7 +247,8 @@ class DataChunk:
 
         asarray_func = np.asarray_chkfinite if chkfinite else np.asarray
         for name, value in inputs.items():
-            array[name] = asarray_func(value)
+            # cast first: the check for non-finite values skips arrays of python objects
+            array[name] = asarray_func(np.asarray(value, dtype=dtype[name]))
 
         if degrees:
             array["ra"] = np.deg2rad(array["ra"])
